@@ -333,6 +333,20 @@ uint32_t vp_cnt_waited_load (nsync_atomic_uint32_ *p, int order);
 #define VP_CNT_STORE(p,v,order)
 #endif
 
+#ifdef VP_RG_NOTE
+#include "vp_note.h"
+uint32_t vp_note_load (int i, nsync_atomic_uint32_ *p, int order);
+void vp_note_store (int i, nsync_atomic_uint32_ *p, uint32_t v, int order);
+int vp_note_cas (int i, nsync_atomic_uint32_ *p, uint32_t o, uint32_t n, int order);
+#define VP_NOTE_CAS(p,o,n,order) { int ni_ = vp_note_index (p); if (ni_ >= 0) return vp_note_cas (ni_, (p), (o), (n), (order)); }
+#define VP_NOTE_LOAD(p,order) { int ni_ = vp_note_index (p); if (ni_ >= 0) return vp_note_load (ni_, (p), (order)); }
+#define VP_NOTE_STORE(p,v,order) { int ni_ = vp_note_index (p); if (ni_ >= 0) { vp_note_store (ni_, (p), (v), (order)); return; } }
+#else
+#define VP_NOTE_CAS(p,o,n,order)
+#define VP_NOTE_LOAD(p,order)
+#define VP_NOTE_STORE(p,v,order)
+#endif
+
 /* ------------------------------------------------------------------ */
 /* Waiting flags of OTHER threads' waiter records, as seen by a waker: the
    hand-off is "unlink, store waiting = 0 with release order, post the
@@ -457,6 +471,7 @@ int vp_cas (nsync_atomic_uint32_ *p, uint32_t o, uint32_t n, int order) {
 	VP_ONCE_CAS (p, o, n, order);
 	VP_CNT_CAS (p, o, n, order);
 	VP_CV_CAS (p, o, n, order);
+	VP_NOTE_CAS (p, o, n, order);
 #ifndef VP_SEQUENTIAL
 	if (p != vp_reg.my_waiting) *p = vp_nondet_u32 ();   /* unregistered: any environment */
 #endif
@@ -471,6 +486,7 @@ uint32_t vp_load (nsync_atomic_uint32_ *p, int order) {
 	VP_ONCE_LOAD (p, order);
 	VP_CNT_LOAD (p, order);
 	VP_CV_LOAD (p, order);
+	VP_NOTE_LOAD (p, order);
 #ifndef VP_SEQUENTIAL
 	*p = vp_nondet_u32 ();
 #endif
@@ -483,6 +499,7 @@ void vp_store (nsync_atomic_uint32_ *p, uint32_t v, int order) {
 	VP_ONCE_STORE (p, v, order);
 	VP_CNT_STORE (p, v, order);
 	VP_CV_STORE (p, v, order);
+	VP_NOTE_STORE (p, v, order);
 	VP_WK_STORE (p, v, order);
 	*p = v;
 }
